@@ -440,7 +440,10 @@ func (c *Client) recv(keepaliveQuit chan<- struct{}) {
 			_ = c.Send(answer)
 		case stanza.StreamClosePacket:
 			// TCP messages should arrive in order, so we can expect to get nothing more after this occurs
+			stopKeepalive()
 			c.transport.ReceivedStreamClose()
+			// Whoever closed the stream first, the session is over.
+			c.disconnected(c.Session.SMState)
 			return
 		default:
 			c.Session.SMState.Inbound++
